@@ -138,9 +138,7 @@ Print Assumptions c17_interp_terminates.
 (* every item covers at least one byte and lies within the content *)
 Theorem c17_interp_items_in_bounds : forall ia ian s its t, interp_lex ia ian s = Some its -> In t its ->
   istart t < iend t /\ iend t <= blen s.
-Proof.
-  intros ia ian s its t H I. destruct (itiles_bounds ia ian _ _ _ (interp_tiles ia ian _ _ H) _ I) as (_ & A & B). split; [exact A|exact B].
-Qed.
+Proof. exact interp_items_in_bounds. Qed.
 Print Assumptions c17_interp_items_in_bounds.
 
 (* the items partition the content: the first starts at 0, each one starts where the previous one ends (no gap at all, no
@@ -150,13 +148,7 @@ Theorem c17_interp_items_tile : forall ia ian s its, interp_lex ia ian s = Some 
   (forall l1 t1 t2 l2, its = l1 ++ t1 :: t2 :: l2 -> iend t1 = istart t2) /\
   (forall l t, its = l ++ [t] -> iend t = blen s) /\
   (its = [] -> s = []).
-Proof.
-  intros ia ian s its H. pose proof (interp_tiles ia ian _ _ H) as Tl. repeat split.
-  - intros t ts ->. exact (itiles_first ia ian _ _ _ _ Tl).
-  - exact (itiles_contiguous ia ian _ _ _ Tl).
-  - intros l t E. rewrite (itiles_last ia ian _ _ _ Tl _ _ E). reflexivity.
-  - intros ->. exact (itiles_empty ia ian _ _ Tl).
-Qed.
+Proof. exact interp_items_tile. Qed.
 Print Assumptions c17_interp_items_tile.
 
 (* the span reported for the identifier path of an Expr item lies strictly inside the item's braces *)
